@@ -103,7 +103,7 @@ End AssocLemmas.
    textx/metamodel.py): the functions driven by the generated facts ARE the documented ones.
    Each proof computes with the generated definitions, so it fails when the source searches in
    another order, splits qualified names elsewhere, stops normalising import names, registers
-   imports only on first load, or builds _tx_fqn differently. *)
+   imports only on first load_doc, or builds _tx_fqn differently. *)
 Lemma lookup_src_doc s cur name : lookup s cur name = lookup_doc s cur name.
 Proof.
   unfold lookup, lookup_doc, qualified_split_last, lookup_steps.
@@ -112,11 +112,30 @@ Proof.
   destruct (first_def s (imports_of s cur) name); reflexivity.
 Qed.
 
-Lemma new_import_src_doc rec stk cur imp s : new_import rec stk cur imp s = new_import_doc rec stk cur imp s.
-Proof. unfold new_import, register_import_always. reflexivity. Qed.
+Lemma abs_import_src_doc main cur imp : has_dot main = false -> abs_import_src main cur imp = abs_import cur imp.
+Proof.
+  intro Hm. unfold abs_import_src. destruct (main_in_root && str_eqb cur main) eqn:E; [|reflexivity].
+  apply andb_true_iff in E as [_ E]. apply str_eqb_eq in E. subst cur.
+  unfold abs_import, rel_import. rewrite (rsplit1_nodot _ Hm). reflexivity.
+Qed.
+
+Lemma abs_import_main main imp : abs_import_src main main imp = norm_dots imp.
+Proof. unfold abs_import_src, main_in_root, normalise_import. rewrite str_eqb_refl. reflexivity. Qed.
+
+Lemma new_import_src_doc main rec stk cur imp s : has_dot main = false ->
+  new_import main rec stk cur imp s = new_import_doc rec stk cur imp s.
+Proof.
+  intro Hm. unfold new_import, new_import_doc, stack_balanced, nested_ops, register_import_always.
+  cbn [nops_eqb nop_eqb andb negb]. rewrite (abs_import_src_doc _ _ _ Hm).
+  destruct (has_err s) eqn:E; [reflexivity|]. destruct (has_ns s (abs_import cur imp)); [|reflexivity].
+  destruct (mem_str (abs_import cur imp) stk); unfold has_err in *; cbn [serr note_back]; rewrite E; reflexivity.
+Qed.
 
 Lemma abs_import_normalised cur imp : abs_import cur imp = norm_dots (rel_import cur imp).
 Proof. unfold abs_import, normalise_import. reflexivity. Qed.
+
+Lemma main_in_root_doc : main_in_root = true.
+Proof. reflexivity. Qed.
 
 Lemma initial_imports_base : initial_imports = [BASE].
 Proof. reflexivity. Qed.
@@ -190,7 +209,7 @@ Qed.
 
 (* A qualified name selects the named namespace's rule, whatever the current namespace and
    its imports are. *)
-Lemma lookup_qualified s cur q n : has_dot n = false -> lookup s cur (q ++ DOT :: n) = lookup_in s q n.
+Lemma lookup_qualified s cur q n : has_dot n = false -> lookup s cur (q ++ DOT :: n) = lookup_qual s q n.
 Proof. intro Hd. rewrite lookup_src_doc. unfold lookup_doc. rewrite (rsplit1_qualified _ _ Hd). reflexivity. Qed.
 
 (* ------------------------------------------------------------------ the cyclic-import defect *)
@@ -209,7 +228,7 @@ Lemma cycle_unexisting_fails :
   spec_resolve ex_unexisting [98]%N [88]%N = Some ([97], [88])%N.
 Proof. split; vm_compute; reflexivity. Qed.
 
-(* ------------------------------------------------------------------ generic induction over load *)
+(* ------------------------------------------------------------------ generic induction over load_doc *)
 Lemma has_err_false s : has_err s = false <-> serr s = None.
 Proof. unfold has_err. destruct (serr s); split; intro H; try reflexivity; discriminate. Qed.
 
@@ -228,9 +247,9 @@ Section LoadRel.
   Hypothesis R_second : forall ns f s, serr s = None -> aget ns fs = Some f -> R s (second_pass ns f s).
 
   Lemma new_import_rel rec stk cur imp s :
-    (forall a t, R t (rec a t)) -> R s (new_import rec stk cur imp s).
+    (forall a t, R t (rec a t)) -> R s (new_import_doc rec stk cur imp s).
   Proof.
-    intro Hrec. rewrite new_import_src_doc. unfold new_import_doc. destruct (has_err s) eqn:He; [apply R_refl|].
+    intro Hrec. unfold new_import_doc. destruct (has_err s) eqn:He; [apply R_refl|].
     apply has_err_false in He.
     set (a := abs_import cur imp).
     set (s1 := if has_ns s a then if mem_str a stk then note_back cur a s else s else rec a (enter a s)).
@@ -244,10 +263,10 @@ Section LoadRel.
 
   Lemma fold_imports_rel rec stk cur imps s :
     (forall a t, R t (rec a t)) ->
-    R s (fold_left (fun s imp => new_import rec stk cur imp s) imps s).
+    R s (fold_left (fun s imp => new_import_doc rec stk cur imp s) imps s).
   Proof.
     intro Hrec. revert s. induction imps as [|i imps IH]; intro s; cbn [fold_left]; [apply R_refl|].
-    apply (R_trans _ (new_import rec stk cur i s)); [apply new_import_rel; exact Hrec | apply IH].
+    apply (R_trans _ (new_import_doc rec stk cur i s)); [apply new_import_rel; exact Hrec | apply IH].
   Qed.
 
   Lemma new_class_err ns r s : serr s <> None -> new_class ns r s = s.
@@ -268,9 +287,9 @@ Section LoadRel.
   Lemma second_pass_err ns f s : serr s <> None -> second_pass ns f s = s.
   Proof. intro H. unfold second_pass, has_err. destruct (serr s); [reflexivity | contradiction]. Qed.
 
-  Lemma load_rel : forall fuel stk ns s, R s (load fuel fs stk ns s).
+  Lemma load_rel : forall fuel stk ns s, R s (load_doc fuel fs stk ns s).
   Proof.
-    induction fuel as [|fuel IH]; intros stk ns s; cbn [load];
+    induction fuel as [|fuel IH]; intros stk ns s; cbn [load_doc];
       (destruct (has_err s) eqn:He; [apply R_refl|]); apply has_err_false in He;
       (destruct (aget ns fs) as [f|] eqn:Hf; [|apply R_set_err; exact He]).
     - apply R_set_err; exact He.
@@ -359,7 +378,7 @@ Qed.
 Lemma app_nil_inv {A} (l l' : list A) : l ++ l' = [] -> l = [].
 Proof. destruct l; [reflexivity | discriminate]. Qed.
 
-Lemma grow_load fs fuel stk ns s : grow s (load fuel fs stk ns s).
+Lemma grow_load fs fuel stk ns s : grow s (load_doc fuel fs stk ns s).
 Proof.
   apply load_rel.
   - apply grow_refl.
@@ -429,21 +448,21 @@ Section Inv.
   Definition id_inj (s : st) : Prop := forall a n c a' n' c',
     lookup_in s a n = Some c -> lookup_in s a' n' = Some c' -> c_id c = c_id c' -> a = a' /\ n = n'.
   Definition sync (s : st) : Prop := akeys (spaces s) = akeys (imported s).
-  Definition CF (s : st) : Prop := sync s /\ cls_inv s /\ id_inj s.
+  Definition CF (s : st) : Prop := sync s /\ cls_inv s /\ id_inj s /\ reflangs s = [].
 
   Lemma CF_same s s' : spaces s' = spaces s -> akeys (imported s') = akeys (imported s) -> created s' = created s ->
-    CF s -> CF s'.
+    reflangs s' = reflangs s -> CF s -> CF s'.
   Proof.
-    intros Hs Hi Hc (A & B & C). unfold CF, sync, cls_inv, id_inj, lookup_in in *. rewrite Hs, Hi, Hc.
-    split; [|split]; assumption.
+    intros Hs Hi Hc Hr (A & B & C & D). unfold CF, sync, cls_inv, id_inj, lookup_in in *. rewrite Hs, Hi, Hc, Hr.
+    split; [|split; [|split]]; assumption.
   Qed.
 
   Lemma CF_init : CF init.
   Proof.
     assert (L : forall a n c, lookup_in init a n = Some c -> a = BASE /\ aget n base_dict = Some c).
-    { intros a n c. unfold lookup_in, init; cbn [spaces aget]. destruct (str_eqb a BASE) eqn:E; [|discriminate].
+    { intros a n c. unfold lookup_in, init, init_with; cbn [spaces aget]. destruct (str_eqb a BASE) eqn:E; [|discriminate].
       apply str_eqb_eq in E. intro H. split; assumption. }
-    split; [reflexivity|]. split.
+    split; [reflexivity|]. split; [|split; [|reflexivity]].
     - intros a n c H. apply L in H as [-> H]. apply base_lookup in H as (H1 & H2 & H3 & H4 & _).
       repeat split; try assumption. left. split; [reflexivity | assumption].
     - intros a n c a' n' c' H H' Hid. apply L in H as [-> H]. apply L in H' as [-> H'].
@@ -453,7 +472,7 @@ Section Inv.
 
   Lemma CF_enter a s : has_ns s a = false -> CF s -> CF (enter a s).
   Proof.
-    intros Hn (A & B & C). split; [|split].
+    intros Hn (A & B & C & D). split; [|split; [|split; [|exact D]]].
     - unfold sync, enter, akeys in *; cbn [spaces imported]. rewrite !map_app, A. reflexivity.
     - intros b n c H. rewrite lookup_in_enter in H by exact Hn. apply B in H. exact H.
     - intros b n c b' n' c' H H'. rewrite lookup_in_enter in H, H' by exact Hn. apply C; assumption.
@@ -467,10 +486,10 @@ Section Inv.
   Lemma CF_new_class ns f r s : serr s = None -> aget ns fs = Some f -> In r (grules f) ->
     CF s -> CF (new_class ns r s).
   Proof.
-    intros He Hf Hr (A & B & C).
+    intros He Hf Hr (A & B & C & D).
     assert (Hcr : created (new_class ns r s) = S (created s)).
     { unfold new_class. apply has_err_false in He. rewrite He. reflexivity. }
-    split; [|split].
+    split; [|split; [|split; [|unfold new_class; destruct (has_err s); exact D]]].
     - unfold sync, new_class. destruct (has_err s); [exact A|]. cbn [spaces imported]. rewrite akeys_aupd. exact A.
     - intros a n c H. rewrite lookup_in_new_class in H by exact He. rewrite Hcr.
       destruct (str_eqb a ns && has_ns s ns && str_eqb n (rname r)) eqn:E.
@@ -489,14 +508,14 @@ Section Inv.
       + eapply C; eassumption.
   Qed.
 
-  Lemma CF_load fuel stk ns s : CF s -> CF (load fuel fs stk ns s).
+  Lemma CF_load fuel stk ns s : CF s -> CF (load_doc fuel fs stk ns s).
   Proof.
     apply (load_rel fs (fun s s' => CF s -> CF s')).
     - auto.
     - auto.
     - intros e t _. apply CF_same; reflexivity.
     - intros a t _. apply CF_enter.
-    - intros cur a t _. apply CF_same; [reflexivity | cbn [imported add_imported]; apply akeys_aupd | reflexivity].
+    - intros cur a t _. apply CF_same; [reflexivity | cbn [imported add_imported]; apply akeys_aupd | reflexivity | reflexivity].
     - intros cur a t _. apply CF_same; reflexivity.
     - intros n t _. apply CF_same; reflexivity.
     - intros n f r t. apply CF_new_class.
@@ -507,7 +526,7 @@ End Inv.
 (* ------------------------------------------------------------------ resolution = documented order *)
 Lemma BC_init n : is_base n = true -> lookup_in init BASE n <> None.
 Proof.
-  unfold lookup_in, init; cbn [spaces aget]. replace (str_eqb BASE BASE) with true by (vm_compute; reflexivity).
+  unfold lookup_in, init, init_with; cbn [spaces aget]. replace (str_eqb BASE BASE) with true by (vm_compute; reflexivity).
   unfold is_base, mem_str, base_dict, base_names.
   cbn [existsb number_from map aget fst snd].
   repeat (destruct (str_eqb n _); [intros _ H; discriminate H|]). cbn [orb]. discriminate.
@@ -568,10 +587,11 @@ Section Main.
   Qed.
 
   Lemma ready_lookup ns f s name c : Ready ns f s -> (rsplit1 name = None -> OkImps ns f s name) ->
-    cls_inv fs s -> DI s -> BC s ->
+    reflangs s = [] -> cls_inv fs s -> DI s -> BC s ->
     lookup s ns name = Some c -> Some (cls_key c) = spec_resolve fs ns name.
   Proof.
-    intros (Hf & Hown & Himp) Hdone B D Hbc. rewrite lookup_src_doc. unfold lookup_doc, spec_resolve.
+    intros (Hf & Hown & Himp) Hdone Hnr B D Hbc. rewrite lookup_src_doc. unfold lookup_doc, spec_resolve, lookup_qual.
+    rewrite Hnr. cbn [aget].
     destruct (rsplit1 name) as [[q n]|] eqn:Er; [|specialize (Hdone eq_refl)].
     - intro E. apply B in E as (H1 & H2 & _ & Hd). unfold cls_key. rewrite H1, H2.
       destruct (defines fs q n); [reflexivity|]. destruct Hd as [[-> Hb]|Hd]; [|discriminate].
@@ -685,11 +705,11 @@ Proof.
 Qed.
 
 (* ------------------------------------------------------------------ the main induction *)
-Lemma new_import_err rec stk cur imp s : serr s <> None -> new_import rec stk cur imp s = s.
-Proof. intro H. rewrite new_import_src_doc. unfold new_import_doc, has_err. destruct (serr s); [reflexivity | contradiction]. Qed.
+Lemma new_import_err rec stk cur imp s : serr s <> None -> new_import_doc rec stk cur imp s = s.
+Proof. intro H. unfold new_import_doc, has_err. destruct (serr s); [reflexivity | contradiction]. Qed.
 
 Lemma fold_imports_err rec stk cur imps : forall s, serr s <> None ->
-  fold_left (fun s imp => new_import rec stk cur imp s) imps s = s.
+  fold_left (fun s imp => new_import_doc rec stk cur imp s) imps s = s.
 Proof.
   induction imps as [|i imps IH]; intros s H; cbn [fold_left]; [reflexivity|].
   rewrite new_import_err by exact H. apply IH. exact H.
@@ -710,10 +730,11 @@ Section Main2.
 
   Lemma Good_same stk s s' :
     spaces s' = spaces s -> akeys (imported s') = akeys (imported s) -> created s' = created s ->
+    reflangs s' = reflangs s ->
     done s' = done s -> links s' = links s -> serr s' = serr s -> incl (backs s) (backs s') ->
     Good stk s -> Good stk s'.
   Proof.
-    intros Hs Hi Hc Hd Hl He Hb (G1 & G2 & G3 & G4 & G5 & G6).
+    intros Hs Hi Hc Hr Hd Hl He Hb (G1 & G2 & G3 & G4 & G5 & G6).
     split; [congruence|]. split; [eapply CF_same; eassumption|].
     unfold BC, DI, LK, OS, lookup_in, has_ns in *. rewrite Hs, Hd, Hl.
     split; [exact G3|]. split; [exact G4|]. split; [|exact G6].
@@ -729,24 +750,24 @@ Section Main2.
 
   Definition LoadSpec (fuel : nat) : Prop :=
     forall stk ns s, Good (ns :: stk) s -> has_ns s ns = true -> imports_of s ns = [BASE] ->
-      serr (load fuel fs stk ns s) = None ->
-      Good stk (load fuel fs stk ns s) /\ In ns (done (load fuel fs stk ns s)) /\
-      (forall k, has_ns s k = true -> k <> ns -> imports_of (load fuel fs stk ns s) k = imports_of s k) /\
+      serr (load_doc fuel fs stk ns s) = None ->
+      Good stk (load_doc fuel fs stk ns s) /\ In ns (done (load_doc fuel fs stk ns s)) /\
+      (forall k, has_ns s k = true -> k <> ns -> imports_of (load_doc fuel fs stk ns s) k = imports_of s k) /\
       (forall f, aget ns fs = Some f ->
-         imports_of (load fuel fs stk ns s) ns = BASE :: map (abs_import ns) (gimports f) /\
-         forall a, In a (map (abs_import ns) (gimports f)) -> has_ns (load fuel fs stk ns s) a = true).
+         imports_of (load_doc fuel fs stk ns s) ns = BASE :: map (abs_import ns) (gimports f) /\
+         forall a, In a (map (abs_import ns) (gimports f)) -> has_ns (load_doc fuel fs stk ns s) a = true).
 
   Lemma imports_some t ns l : imports_of t ns = BASE :: l -> aget ns (imported t) <> None.
   Proof. unfold imports_of. destruct (aget ns (imported t)); [discriminate | intro H; discriminate H]. Qed.
 
   Lemma import_step fuel stk ns s0 pre imp t : LoadSpec fuel ->
     Mid stk ns s0 pre t ->
-    serr (new_import (load fuel fs (ns :: stk)) (ns :: stk) ns imp t) = None ->
-    Mid stk ns s0 (pre ++ [imp]) (new_import (load fuel fs (ns :: stk)) (ns :: stk) ns imp t).
+    serr (new_import_doc (load_doc fuel fs (ns :: stk)) (ns :: stk) ns imp t) = None ->
+    Mid stk ns s0 (pre ++ [imp]) (new_import_doc (load_doc fuel fs (ns :: stk)) (ns :: stk) ns imp t).
   Proof.
     intros IH (HG & Hns & Himp & Hdone & Hframe & Hhas).
     pose proof HG as (He & Hcf & Hbc & Hdi & Hlk & Hos).
-    rewrite new_import_src_doc. unfold new_import_doc. rewrite (proj2 (has_err_false t) He).
+    unfold new_import_doc. rewrite (proj2 (has_err_false t) He).
     set (a := abs_import ns imp).
     assert (Hpre : map (abs_import ns) (pre ++ [imp]) = map (abs_import ns) pre ++ [a]) by (rewrite map_app; reflexivity).
     destruct (has_ns t a) eqn:Ha.
@@ -763,7 +784,7 @@ Section Main2.
         - discriminate. }
       rewrite (proj2 (has_err_false s1)) by congruence. intros _.
       assert (HG1 : Good (ns :: stk) s1).
-      { apply (Good_same _ t); try congruence. apply Eb. }
+      { apply (Good_same _ t); try congruence; [unfold s1; destruct (mem_str a (ns :: stk)); reflexivity | apply Eb]. }
       split; [|split; [|split; [|split; [|split]]]].
       + apply (Good_same _ s1); try reflexivity; [|apply incl_refl|exact HG1]. cbn [imported add_imported]. apply akeys_aupd.
       + unfold has_ns in *. cbn [spaces add_imported]. rewrite E1. exact Hns.
@@ -779,9 +800,9 @@ Section Main2.
         * rewrite imports_of_add_other by exact Hne. unfold imports_of in *. rewrite E2. exact F2.
       + intros x Hx. rewrite Hpre in Hx. apply in_app_or in Hx as [Hx|[<-|[]]];
           unfold has_ns in *; cbn [spaces add_imported]; rewrite E1; [apply Hhas; exact Hx | exact Ha].
-    - (* a new namespace: load its file completely, then record the import *)
+    - (* a new namespace: load_doc its file completely, then record the import *)
       set (t1 := enter a t).
-      set (s1 := load fuel fs (ns :: stk) a t1).
+      set (s1 := load_doc fuel fs (ns :: stk) a t1).
       destruct (has_err s1) eqn:He1; [intro H; apply has_err_false in H; congruence|].
       apply has_err_false in He1. intros _.
       assert (Hsync : sync t) by apply Hcf.
@@ -827,13 +848,13 @@ Section Main2.
 
   Lemma import_fold fuel stk ns s0 : LoadSpec fuel -> forall rest pre t,
     Mid stk ns s0 pre t ->
-    serr (fold_left (fun s imp => new_import (load fuel fs (ns :: stk)) (ns :: stk) ns imp s) rest t) = None ->
+    serr (fold_left (fun s imp => new_import_doc (load_doc fuel fs (ns :: stk)) (ns :: stk) ns imp s) rest t) = None ->
     Mid stk ns s0 (pre ++ rest)
-        (fold_left (fun s imp => new_import (load fuel fs (ns :: stk)) (ns :: stk) ns imp s) rest t).
+        (fold_left (fun s imp => new_import_doc (load_doc fuel fs (ns :: stk)) (ns :: stk) ns imp s) rest t).
   Proof.
     intros IH. induction rest as [|i rest IHr]; intros pre t HM He; cbn [fold_left] in *.
     - rewrite app_nil_r. exact HM.
-    - set (t1 := new_import (load fuel fs (ns :: stk)) (ns :: stk) ns i t) in *.
+    - set (t1 := new_import_doc (load_doc fuel fs (ns :: stk)) (ns :: stk) ns i t) in *.
       assert (He1 : serr t1 = None).
       { destruct (serr t1) eqn:E; [|reflexivity]. rewrite fold_imports_err in He by (rewrite E; discriminate). congruence. }
       replace (pre ++ i :: rest) with ((pre ++ [i]) ++ rest) by (rewrite <- app_assoc; reflexivity).
@@ -842,7 +863,7 @@ Section Main2.
 
   Lemma load_good : forall fuel, LoadSpec fuel.
   Proof.
-    induction fuel as [|fuel IH]; intros stk ns s HG Hns Himp; cbn [load];
+    induction fuel as [|fuel IH]; intros stk ns s HG Hns Himp; cbn [load_doc];
       pose proof HG as (He & Hcf & Hbc & Hdi & Hlk & Hos);
       rewrite (proj2 (has_err_false s) He);
       (destruct (aget ns fs) as [f|] eqn:Hf; [|cbn [serr set_err]; discriminate]).
@@ -910,7 +931,7 @@ Section Main2.
                  (split; [exact Hr|]); apply in_or_app; [left | right]; exact Hn. }
              destruct Hshape as (Hn & Htg & Hfn). unfold link_ok. rewrite Hn.
              destruct (l_target l) as [c|] eqn:Et; [|contradiction]. cbn [option_map].
-             eapply (ready_lookup fs Hbase); [exact Hready | apply Hok; assumption | apply Hcf2 | exact Hdi2 | exact Hbc2 | symmetry; exact Htg].
+             eapply (ready_lookup fs Hbase); [exact Hready | apply Hok; assumption | apply Hcf2 | apply Hcf2 | exact Hdi2 | exact Hbc2 | symmetry; exact Htg].
         * intros a Ha. change (has_ns s2 a = true) in Ha. rewrite C6 in Ha.
           cbn [done log_done add_links]. destruct (Hos1 a Ha) as [H|[H|[H|H]]].
           -- left; exact H.
@@ -935,15 +956,15 @@ Section Top.
 
   Lemma has_ns_init k : has_ns init k = true -> k = BASE.
   Proof.
-    unfold has_ns, init; cbn [spaces aget]. destruct (str_eqb k BASE) eqn:E; [|discriminate].
+    unfold has_ns, init, init_with; cbn [spaces aget]. destruct (str_eqb k BASE) eqn:E; [|discriminate].
     intros _. apply str_eqb_eq. exact E.
   Qed.
 
   Lemma has_ns_init_main : has_ns init main = false.
   Proof. destruct (has_ns init main) eqn:E; [|reflexivity]. apply has_ns_init in E. contradiction. Qed.
 
-  Lemma CF_main : CF fs (load_main fs main).
-  Proof. unfold load_main. apply CF_load. apply CF_enter; [exact has_ns_init_main | apply CF_init]. Qed.
+  Lemma CF_main : CF fs (load_main_doc fs main).
+  Proof. unfold load_main_doc. apply CF_load. apply CF_enter; [exact has_ns_init_main | apply CF_init]. Qed.
 
   Lemma start_good : Good fs [main] (enter main init) /\ has_ns (enter main init) main = true /\
                      imports_of (enter main init) main = [BASE].
@@ -956,15 +977,15 @@ Section Top.
       + left. apply has_ns_init. exact Ha.
       + apply str_eqb_eq in Ha. subst. right; right; left; reflexivity.
     - rewrite has_ns_enter, str_eqb_refl. apply orb_true_r.
-    - apply imports_of_enter_new. cbn [imported init aget].
+    - apply imports_of_enter_new. unfold init, init_with; cbn [imported aget].
       destruct (str_eqb main BASE) eqn:E; [apply str_eqb_eq in E; contradiction | reflexivity].
   Qed.
 
-  Lemma main_result : serr (load_main fs main) = None ->
-    Good fs [] (load_main fs main) /\ In main (done (load_main fs main)) /\
+  Lemma main_result : serr (load_main_doc fs main) = None ->
+    Good fs [] (load_main_doc fs main) /\ In main (done (load_main_doc fs main)) /\
     (forall f, aget main fs = Some f ->
-       imports_of (load_main fs main) main = BASE :: map (abs_import main) (gimports f) /\
-       forall a, In a (map (abs_import main) (gimports f)) -> has_ns (load_main fs main) a = true).
+       imports_of (load_main_doc fs main) main = BASE :: map (abs_import main) (gimports f) /\
+       forall a, In a (map (abs_import main) (gimports f)) -> has_ns (load_main_doc fs main) a = true).
   Proof.
     intro He. destruct start_good as (G & Hn & Hi).
     destruct (load_good fs Hbase (S (length fs)) [] main (enter main init) G Hn Hi He) as (A & B & _ & D).
@@ -973,22 +994,22 @@ Section Top.
 
   (* every reference recorded by a second pass is the documented one, when every followed
      import of a grammar still being loaded is harmless ([safe]); in particular when there is none *)
-  Lemma links_spec_safe : serr (load_main fs main) = None -> safe fs (load_main fs main) = true ->
-    forall l, In l (links (load_main fs main)) -> link_ok fs l.
+  Lemma links_spec_safe : serr (load_main_doc fs main) = None -> safe fs (load_main_doc fs main) = true ->
+    forall l, In l (links (load_main_doc fs main)) -> link_ok fs l.
   Proof. intros He Hb. destruct (main_result He) as ((_ & _ & _ & _ & Hlk & _) & _). apply Hlk. exact Hb. Qed.
 
-  Lemma links_spec : serr (load_main fs main) = None -> backs (load_main fs main) = [] ->
-    forall l, In l (links (load_main fs main)) -> link_ok fs l.
+  Lemma links_spec : serr (load_main_doc fs main) = None -> backs (load_main_doc fs main) = [] ->
+    forall l, In l (links (load_main_doc fs main)) -> link_ok fs l.
   Proof. intros He Hb. apply links_spec_safe; [exact He|]. unfold safe. rewrite Hb. reflexivity. Qed.
 
-  Lemma main_file : serr (load_main fs main) = None -> exists f, aget main fs = Some f.
+  Lemma main_file : serr (load_main_doc fs main) = None -> exists f, aget main fs = Some f.
   Proof.
-    unfold load_main. cbn [load]. destruct (has_err (enter main init)) eqn:E; [discriminate E|].
+    unfold load_main_doc. cbn [load_doc]. destruct (has_err (enter main init)) eqn:E; [discriminate E|].
     destruct (aget main fs) as [f|]; [intros _; exists f; reflexivity | cbn [serr set_err]; discriminate].
   Qed.
 
-  Lemma main_ready : serr (load_main fs main) = None ->
-    exists f, Ready fs main f (load_main fs main) /\ forall name, OkImps fs main f (load_main fs main) name.
+  Lemma main_ready : serr (load_main_doc fs main) = None ->
+    exists f, Ready fs main f (load_main_doc fs main) /\ forall name, OkImps fs main f (load_main_doc fs main) name.
   Proof.
     intro He. destruct (main_file He) as [f Hf]. exists f.
     destruct (main_result He) as ((_ & _ & _ & Hdi & _ & Hos) & Hd & Himp).
@@ -998,17 +1019,17 @@ Section Top.
     - intros name a Ha. destruct (Hos a (Hh a Ha)) as [H|[H|[]]]; [right; left; exact H | left; exact H].
   Qed.
 
-  (* metamodel[name] after a successful load, cycles or not *)
-  Lemma final_lookup : serr (load_main fs main) = None -> forall name c,
-    lookup (load_main fs main) main name = Some c -> Some (cls_key c) = spec_resolve fs main name.
+  (* metamodel[name] after a successful load_doc, cycles or not *)
+  Lemma final_lookup : serr (load_main_doc fs main) = None -> forall name c,
+    lookup (load_main_doc fs main) main name = Some c -> Some (cls_key c) = spec_resolve fs main name.
   Proof.
     intros He name c H. destruct (main_ready He) as (f & Hr & Hok).
     destruct (main_result He) as ((_ & Hcf & Hbc & Hdi & _) & _).
-    eapply (ready_lookup fs Hbase); [exact Hr | intros _; apply Hok | apply Hcf | exact Hdi | exact Hbc | exact H].
+    eapply (ready_lookup fs Hbase); [exact Hr | intros _; apply Hok | apply Hcf | apply Hcf | exact Hdi | exact Hbc | exact H].
   Qed.
 
-  Lemma final_lookup_none : serr (load_main fs main) = None -> forall name, has_dot name = false ->
-    lookup (load_main fs main) main name = None -> spec_resolve fs main name = None.
+  Lemma final_lookup_none : serr (load_main_doc fs main) = None -> forall name, has_dot name = false ->
+    lookup (load_main_doc fs main) main name = None -> spec_resolve fs main name = None.
   Proof.
     intros He name Hd H. destruct (main_ready He) as (f & Hr & Hok).
     destruct (main_result He) as ((_ & Hcf & Hbc & Hdi & _) & _).
@@ -1017,17 +1038,17 @@ Section Top.
 
   (* the class tables: a class sits under its own name in the namespace of its file and
      reports that file-based name; two entries never share a class *)
-  Lemma classes_fqn : forall a n c, lookup_in (load_main fs main) a n = Some c ->
+  Lemma classes_fqn : forall a n c, lookup_in (load_main_doc fs main) a n = Some c ->
     c_ns c = a /\ c_name c = n /\ fqn c = (if str_eqb a BASE then n else a ++ DOT :: n).
   Proof.
-    intros a n c H. destruct CF_main as (_ & B & _). apply B in H as (H1 & H2 & _).
+    intros a n c H. destruct CF_main as (_ & B & _ & _). apply B in H as (H1 & H2 & _).
     split; [exact H1|]. split; [exact H2|]. rewrite fqn_src_doc. unfold fqn_doc. rewrite H1, H2. reflexivity.
   Qed.
 
   Lemma classes_distinct : forall a n c a' n' c',
-    lookup_in (load_main fs main) a n = Some c -> lookup_in (load_main fs main) a' n' = Some c' ->
+    lookup_in (load_main_doc fs main) a n = Some c -> lookup_in (load_main_doc fs main) a' n' = Some c' ->
     c_id c = c_id c' -> a = a' /\ n = n'.
-  Proof. destruct CF_main as (_ & _ & C). exact C. Qed.
+  Proof. destruct CF_main as (_ & _ & C & _). exact C. Qed.
 End Top.
 
 (* ------------------------------------------------------------------ every file is read once *)
@@ -1067,27 +1088,27 @@ Section Once.
   Qed.
 
   Definition OnceSpec (fuel : nat) : Prop := forall stk ns s,
-    NL s -> ~ In ns (loads s) -> has_ns s ns = true -> NL (load fuel fs stk ns s).
+    NL s -> ~ In ns (loads s) -> has_ns s ns = true -> NL (load_doc fuel fs stk ns s).
 
   Lemma NL_import fuel stk cur imp t : OnceSpec fuel -> NL t ->
-    NL (new_import (load fuel fs stk) stk cur imp t).
+    NL (new_import_doc (load_doc fuel fs stk) stk cur imp t).
   Proof.
-    intros IH H. rewrite new_import_src_doc. unfold new_import_doc. destruct (has_err t); [exact H|].
+    intros IH H. unfold new_import_doc. destruct (has_err t); [exact H|].
     set (a := abs_import cur imp).
     destruct (has_ns t a) eqn:Ha.
     - set (s1 := if mem_str a stk then note_back cur a t else t).
       assert (H1 : NL s1) by (unfold s1; destruct (mem_str a stk); [apply (NL_same t); [reflexivity | apply has_ns_spaces; reflexivity | exact H] | exact H]).
       destruct (has_err s1); [exact H1|]. apply (NL_same s1); [reflexivity | apply has_ns_spaces; reflexivity | exact H1].
-    - assert (H1 : NL (load fuel fs stk a (enter a t))).
+    - assert (H1 : NL (load_doc fuel fs stk a (enter a t))).
       { apply IH.
         - destruct H as [A B]. split; [exact A|]. intros x Hx. rewrite has_ns_enter, (B x Hx). reflexivity.
         - intro Hin. destruct H as [_ B]. cbn [loads enter] in Hin. rewrite (B a Hin) in Ha. discriminate.
         - rewrite has_ns_enter, str_eqb_refl. apply orb_true_r. }
-      destruct (has_err _); [exact H1|]. apply (NL_same (load fuel fs stk a (enter a t))); [reflexivity | apply has_ns_spaces; reflexivity | exact H1].
+      destruct (has_err _); [exact H1|]. apply (NL_same (load_doc fuel fs stk a (enter a t))); [reflexivity | apply has_ns_spaces; reflexivity | exact H1].
   Qed.
 
   Lemma NL_imports fuel stk cur imps : OnceSpec fuel -> forall t, NL t ->
-    NL (fold_left (fun s imp => new_import (load fuel fs stk) stk cur imp s) imps t).
+    NL (fold_left (fun s imp => new_import_doc (load_doc fuel fs stk) stk cur imp s) imps t).
   Proof.
     intro IH. induction imps as [|i imps IHi]; intros t H; cbn [fold_left]; [exact H|].
     apply IHi. apply NL_import; assumption.
@@ -1095,7 +1116,7 @@ Section Once.
 
   Lemma load_once : forall fuel, OnceSpec fuel.
   Proof.
-    induction fuel as [|fuel IH]; intros stk ns s H Hfresh Hns; cbn [load];
+    induction fuel as [|fuel IH]; intros stk ns s H Hfresh Hns; cbn [load_doc];
       (destruct (has_err s); [exact H|]);
       (destruct (aget ns fs) as [f|]; [|apply (NL_same s); [reflexivity | apply has_ns_spaces; reflexivity | exact H]]).
     - apply (NL_same s); [reflexivity | apply has_ns_spaces; reflexivity | exact H].
@@ -1106,9 +1127,9 @@ Section Once.
         apply in_app_or in Ha as [Ha|[<-|[]]]; [apply B; exact Ha | exact Hns].
   Qed.
 
-  Lemma loads_once main : main <> BASE -> NoDup (loads (load_main fs main)).
+  Lemma loads_once main : main <> BASE -> NoDup (loads (load_main_doc fs main)).
   Proof.
-    intro Hm. unfold load_main. apply load_once.
+    intro Hm. unfold load_main_doc. apply load_once.
     - split; [constructor | intros a []].
     - intros [].
     - rewrite has_ns_enter, str_eqb_refl. apply orb_true_r.
@@ -1144,7 +1165,7 @@ Section Term.
   Qed.
 
   Definition NF (s : st) : Prop := serr s <> Some EFuel.
-  Definition TermSpec (fuel : nat) : Prop := forall stk ns s, NF s -> unl s < fuel -> NF (load fuel fs stk ns s).
+  Definition TermSpec (fuel : nat) : Prop := forall stk ns s, NF s -> unl s < fuel -> NF (load_doc fuel fs stk ns s).
 
   Lemma NF_same s s' : serr s' = serr s -> NF s -> NF s'.
   Proof. unfold NF. intros -> H. exact H. Qed.
@@ -1166,9 +1187,9 @@ Section Term.
   Proof. intro H. unfold unl, unl_in, has_ns. rewrite H. reflexivity. Qed.
 
   Lemma term_import fuel stk cur imp t : TermSpec fuel -> NF t -> unl t <= fuel ->
-    NF (new_import (load fuel fs stk) stk cur imp t) /\ unl (new_import (load fuel fs stk) stk cur imp t) <= fuel.
+    NF (new_import_doc (load_doc fuel fs stk) stk cur imp t) /\ unl (new_import_doc (load_doc fuel fs stk) stk cur imp t) <= fuel.
   Proof.
-    intros IH Hn Hu. rewrite new_import_src_doc. unfold new_import_doc. destruct (has_err t); [split; assumption|].
+    intros IH Hn Hu. unfold new_import_doc. destruct (has_err t); [split; assumption|].
     set (a := abs_import cur imp).
     destruct (has_ns t a) eqn:Ha.
     - set (s1 := if mem_str a stk then note_back cur a t else t).
@@ -1177,7 +1198,7 @@ Section Term.
       destruct (has_err s1); (split; [apply (NF_same t); [exact E1 | exact Hn] |]).
       + pose proof (unl_spaces _ _ E2). lia.
       + pose proof (unl_spaces (add_imported cur a s1) s1 eq_refl). pose proof (unl_spaces _ _ E2). lia.
-    - set (t1 := enter a t). set (s1 := load fuel fs stk a t1).
+    - set (t1 := enter a t). set (s1 := load_doc fuel fs stk a t1).
       assert (Hmono : forall k, has_ns t k = true -> has_ns t1 k = true) by (intros k Hk; unfold t1; rewrite has_ns_enter, Hk; reflexivity).
       pose proof (grow_load fs fuel stk a t1) as Hg. fold s1 in Hg.
       assert (Hu1 : unl s1 <= fuel).
@@ -1188,12 +1209,12 @@ Section Term.
           assert (Hlt : unl_in fs t1 < unl_in fs t).
           { apply (unl_strict fs t t1 a f Hmono Hf Ha). unfold t1. rewrite has_ns_enter, str_eqb_refl. apply orb_true_r. }
           unfold unl in *. lia.
-        - destruct fuel; cbn [load]; (destruct (has_err t1); [exact Hn|]); rewrite Hf; unfold NF; cbn [serr set_err]; discriminate. }
+        - destruct fuel; cbn [load_doc]; (destruct (has_err t1); [exact Hn|]); rewrite Hf; unfold NF; cbn [serr set_err]; discriminate. }
       destruct (has_err s1); (split; [exact Hn1 | exact Hu1]).
   Qed.
 
   Lemma term_imports fuel stk cur imps : TermSpec fuel -> forall t, NF t -> unl t <= fuel ->
-    NF (fold_left (fun s imp => new_import (load fuel fs stk) stk cur imp s) imps t).
+    NF (fold_left (fun s imp => new_import_doc (load_doc fuel fs stk) stk cur imp s) imps t).
   Proof.
     intro IH. induction imps as [|i imps IHi]; intros t Hn Hu; cbn [fold_left]; [exact Hn|].
     destruct (term_import fuel stk cur i t IH Hn Hu) as [A B]. apply IHi; assumption.
@@ -1201,7 +1222,7 @@ Section Term.
 
   Lemma load_terminates : forall fuel, TermSpec fuel.
   Proof.
-    induction fuel as [|fuel IH]; intros stk ns s Hn Hu; [lia|]. cbn [load].
+    induction fuel as [|fuel IH]; intros stk ns s Hn Hu; [lia|]. cbn [load_doc].
     destruct (has_err s); [exact Hn|].
     destruct (aget ns fs) as [f|]; [|unfold NF; cbn [serr set_err]; discriminate].
     cbv zeta. apply NF_second. apply NF_classes. apply term_imports.
@@ -1216,10 +1237,10 @@ Section Term.
     destruct (negb (has_ns s (fst p))); cbn [length]; lia.
   Qed.
 
-  (* any import graph, cycles included: the load never runs out of fuel |fs|+1 *)
-  Lemma load_main_terminates main : serr (load_main fs main) <> Some EFuel.
+  (* any import graph, cycles included: the load_doc never runs out of fuel |fs|+1 *)
+  Lemma load_main_terminates main : serr (load_main_doc fs main) <> Some EFuel.
   Proof.
-    unfold load_main. apply load_terminates; [unfold NF; cbn; discriminate|].
+    unfold load_main_doc. apply load_terminates; [unfold NF; cbn; discriminate|].
     pose proof (unl_le (enter main init)). lia.
   Qed.
 End Term.
@@ -1248,19 +1269,19 @@ Section Count.
   Proof. intros L C. exists []. split; [rewrite app_nil_r; exact L | unfold Imports.nrules_of; cbn; lia]. Qed.
 
   Definition CountSpec (fuel : nat) : Prop := forall stk ns s,
-    serr (load fuel fs stk ns s) = None -> Delta s (load fuel fs stk ns s).
+    serr (load_doc fuel fs stk ns s) = None -> Delta s (load_doc fuel fs stk ns s).
 
   Lemma count_import fuel stk cur imp t : CountSpec fuel ->
-    serr (new_import (load fuel fs stk) stk cur imp t) = None ->
-    Delta t (new_import (load fuel fs stk) stk cur imp t).
+    serr (new_import_doc (load_doc fuel fs stk) stk cur imp t) = None ->
+    Delta t (new_import_doc (load_doc fuel fs stk) stk cur imp t).
   Proof.
-    intros IH. rewrite new_import_src_doc. unfold new_import_doc. destruct (has_err t); [intros _; apply Delta_refl|].
+    intros IH. unfold new_import_doc. destruct (has_err t); [intros _; apply Delta_refl|].
     set (a := abs_import cur imp).
     destruct (has_ns t a) eqn:Ha.
     - set (s1 := if mem_str a stk then note_back cur a t else t).
       assert (E : loads s1 = loads t /\ created s1 = created t) by (unfold s1; destruct (mem_str a stk); split; reflexivity).
       destruct E as [E1 E2]. destruct (has_err s1); intros _; apply Delta_same; cbn [loads created add_imported]; assumption.
-    - set (s1 := load fuel fs stk a (enter a t)).
+    - set (s1 := load_doc fuel fs stk a (enter a t)).
       destruct (has_err s1) eqn:He1; [intro H; apply has_err_false in H; congruence|].
       apply has_err_false in He1. intros _.
       apply (Delta_trans _ (enter a t)); [apply Delta_same; reflexivity|].
@@ -1268,11 +1289,11 @@ Section Count.
   Qed.
 
   Lemma count_imports fuel stk cur imps : CountSpec fuel -> forall t,
-    serr (fold_left (fun s imp => new_import (load fuel fs stk) stk cur imp s) imps t) = None ->
-    Delta t (fold_left (fun s imp => new_import (load fuel fs stk) stk cur imp s) imps t).
+    serr (fold_left (fun s imp => new_import_doc (load_doc fuel fs stk) stk cur imp s) imps t) = None ->
+    Delta t (fold_left (fun s imp => new_import_doc (load_doc fuel fs stk) stk cur imp s) imps t).
   Proof.
     intro IH. induction imps as [|i imps IHi]; intros t He; cbn [fold_left] in *; [apply Delta_refl|].
-    set (t1 := new_import (load fuel fs stk) stk cur i t) in *.
+    set (t1 := new_import_doc (load_doc fuel fs stk) stk cur i t) in *.
     assert (He1 : serr t1 = None).
     { destruct (serr t1) eqn:E; [|reflexivity]. rewrite fold_imports_err in He by (rewrite E; discriminate). congruence. }
     apply (Delta_trans _ t1); [apply count_import; assumption | apply IHi; exact He].
@@ -1290,7 +1311,7 @@ Section Count.
 
   Lemma load_count : forall fuel, CountSpec fuel.
   Proof.
-    induction fuel as [|fuel IH]; intros stk ns s; cbn [load];
+    induction fuel as [|fuel IH]; intros stk ns s; cbn [load_doc];
       (destruct (has_err s); [intros _; apply Delta_refl|]);
       (destruct (aget ns fs) as [f|] eqn:Hf; [|cbn [serr set_err]; discriminate]).
     - cbn [serr set_err]; discriminate.
@@ -1319,20 +1340,87 @@ Section Count.
         change (nrules_of (ns :: new)) with (nrules ns + nrules_of new). rewrite Hn. lia.
   Qed.
 
-  (* a successful load creates, besides the 9 built-in classes, exactly one class per rule of
+  (* a successful load_doc creates, besides the 9 built-in classes, exactly one class per rule of
      every file read *)
-  Lemma created_count main : serr (load_main fs main) = None ->
-    created (load_main fs main) = length base_names + nrules_of (loads (load_main fs main)).
+  Lemma created_count main : serr (load_main_doc fs main) = None ->
+    created (load_main_doc fs main) = length base_names + nrules_of (loads (load_main_doc fs main)).
   Proof.
-    intro He. unfold load_main in *. destruct (load_count _ _ _ _ He) as (new & L & C).
+    intro He. unfold load_main_doc in *. destruct (load_count _ _ _ _ He) as (new & L & C).
     rewrite C, L. reflexivity.
   Qed.
 End Count.
 
 Lemma one_class_set fs main : main <> BASE ->
   (forall a n c a' n' c',
+     lookup_in (load_main_doc fs main) a n = Some c -> lookup_in (load_main_doc fs main) a' n' = Some c' ->
+     c_id c = c_id c' -> a = a' /\ n = n') /\
+  (serr (load_main_doc fs main) = None ->
+   created (load_main_doc fs main) = length base_names + nrules_of fs (loads (load_main_doc fs main))).
+Proof. intro H. split; [apply classes_distinct; exact H | apply created_count]. Qed.
+
+(* ------------------------------------------------------------------ the load algorithm of the source *)
+(* Obligation re-proved against Gen/SrcImports.v: with the facts found in the source (imports
+   visited in textual order; both passes of an imported grammar run inside _new_import; the
+   namespace stack is entered before and left after the nested load) the source-driven load is
+   the documented one, about which everything above is proved. *)
+Lemma fold_left_ext {A B} (f g : A -> B -> A) l : forall a, (forall a b, f a b = g a b) -> fold_left f l a = fold_left g l a.
+Proof. induction l as [|x l IH]; intros a H; cbn [fold_left]; [reflexivity|]. rewrite H. apply IH. exact H. Qed.
+
+Lemma new_import_doc_ext rec rec' stk cur imp s : (forall a t, rec a t = rec' a t) ->
+  new_import_doc rec stk cur imp s = new_import_doc rec' stk cur imp s.
+Proof. intro H. unfold new_import_doc. rewrite H. reflexivity. Qed.
+
+Lemma load_src_doc fs main : has_dot main = false -> no_refs fs ->
+  forall fuel stk ns s, load main fuel fs stk ns s = load_doc fuel fs stk ns s.
+Proof.
+  intros Hm Hnr. induction fuel as [|fuel IH]; intros stk ns s; cbn [load load_doc]; [reflexivity|].
+  destruct (has_err s); [reflexivity|]. destruct (aget ns fs) as [f|] eqn:Hf; [|reflexivity].
+  rewrite (Hnr ns f Hf). change (add_refs [] (log_load ns s)) with (log_load ns s).
+  unfold imports_in_text_order, second_pass_inside_import. cbv zeta.
+  rewrite (fold_left_ext _ (fun s imp => new_import_doc (load_doc fuel fs (ns :: stk)) (ns :: stk) ns imp s)); [reflexivity|].
+  intros a b. rewrite (new_import_src_doc _ _ _ _ _ _ Hm). apply new_import_doc_ext. intros x t. apply IH.
+Qed.
+
+Lemma load_main_src_doc fs main : has_dot main = false -> no_refs fs -> load_main fs main = load_main_doc fs main.
+Proof.
+  intros Hm Hnr. unfold load_main, load_main_with, load_main_doc, second_pass_inside_import. cbv zeta.
+  apply load_src_doc; assumption.
+Qed.
+
+(* the statements about metamodel_from_file as the source performs it *)
+Lemma links_spec_src fs main : has_dot main = false -> no_refs fs -> aget BASE fs = None -> main <> BASE ->
+  serr (load_main fs main) = None -> backs (load_main fs main) = [] ->
+  forall l, In l (links (load_main fs main)) -> link_ok fs l.
+Proof. intros Hm Hnr. rewrite (load_main_src_doc _ _ Hm Hnr). apply links_spec. Qed.
+
+Lemma links_spec_safe_src fs main : has_dot main = false -> no_refs fs -> aget BASE fs = None -> main <> BASE ->
+  serr (load_main fs main) = None -> safe fs (load_main fs main) = true ->
+  forall l, In l (links (load_main fs main)) -> link_ok fs l.
+Proof. intros Hm Hnr. rewrite (load_main_src_doc _ _ Hm Hnr). apply links_spec_safe. Qed.
+
+Lemma final_lookup_src fs main : has_dot main = false -> no_refs fs -> aget BASE fs = None -> main <> BASE -> serr (load_main fs main) = None ->
+  forall name c, lookup (load_main fs main) main name = Some c -> Some (cls_key c) = spec_resolve fs main name.
+Proof. intros Hm Hnr. rewrite (load_main_src_doc _ _ Hm Hnr). apply final_lookup. Qed.
+
+Lemma final_lookup_none_src fs main : has_dot main = false -> no_refs fs -> aget BASE fs = None -> main <> BASE -> serr (load_main fs main) = None ->
+  forall name, has_dot name = false -> lookup (load_main fs main) main name = None -> spec_resolve fs main name = None.
+Proof. intros Hm Hnr. rewrite (load_main_src_doc _ _ Hm Hnr). apply final_lookup_none. Qed.
+
+Lemma classes_fqn_src fs main : has_dot main = false -> no_refs fs -> main <> BASE ->
+  forall a n c, lookup_in (load_main fs main) a n = Some c ->
+    c_ns c = a /\ c_name c = n /\ fqn c = (if str_eqb a BASE then n else a ++ DOT :: n).
+Proof. intros Hm Hnr. rewrite (load_main_src_doc _ _ Hm Hnr). apply classes_fqn. Qed.
+
+Lemma one_class_set_src fs main : has_dot main = false -> no_refs fs -> main <> BASE ->
+  (forall a n c a' n' c',
      lookup_in (load_main fs main) a n = Some c -> lookup_in (load_main fs main) a' n' = Some c' ->
      c_id c = c_id c' -> a = a' /\ n = n') /\
   (serr (load_main fs main) = None ->
    created (load_main fs main) = length base_names + nrules_of fs (loads (load_main fs main))).
-Proof. intro H. split; [apply classes_distinct; exact H | apply created_count]. Qed.
+Proof. intros Hm Hnr. rewrite (load_main_src_doc _ _ Hm Hnr). apply one_class_set. Qed.
+
+Lemma loads_once_src fs main : has_dot main = false -> no_refs fs -> main <> BASE -> NoDup (loads (load_main fs main)).
+Proof. intros Hm Hnr. rewrite (load_main_src_doc _ _ Hm Hnr). apply loads_once. Qed.
+
+Lemma load_main_terminates_src fs main : has_dot main = false -> no_refs fs -> serr (load_main fs main) <> Some EFuel.
+Proof. intros Hm Hnr. rewrite (load_main_src_doc _ _ Hm Hnr). apply load_main_terminates. Qed.
